@@ -4,6 +4,7 @@
 package gbnrun
 
 import (
+	"testing/synctest"
 	"encoding/binary"
 	"fmt"
 	"runtime"
@@ -114,6 +115,12 @@ type Config struct {
 	Strict bool
 	// ManualStart: senders wait for Run.StartSenders.
 	ManualStart bool
+	// RealTime: the run is not inside a synctest bubble.
+	RealTime bool
+	// RecvForever: receivers keep calling Recv until it fails.
+	RecvForever bool
+	// CloseScript, if set, replaces the default closing of both ends.
+	CloseScript func(r *Run)
 	RecvSlow func(ep string, id int) time.Duration
 }
 
@@ -136,6 +143,9 @@ type Run struct {
 	startOnce sync.Once
 	calls     [2]int // Send calls started
 	rets      [2]int // Send calls returned
+	rcalls    [2]int // Recv calls started
+	rrets     [2]int // Recv calls returned
+	conns     map[string]*gbn.GoBackNConn
 	HsErr     [2]string
 }
 
@@ -242,6 +252,59 @@ func (r *Run) Probe(ep string) {
 		blocked = 1
 	}
 	r.Rec.Emit("probe", "ep", ep, "returned", rets, "blocked", blocked)
+}
+
+// Quiesce waits until every other goroutine of the bubble is durably blocked
+// (or, in real-time runs, for a short while).
+func (r *Run) Quiesce() {
+	if r.Cfg.RealTime {
+		time.Sleep(30 * time.Millisecond)
+		return
+	}
+	synctest.Wait()
+}
+
+// Blocked reports whether a Send / a Recv call of endpoint ep is in progress.
+func (r *Run) Blocked(ep string) (bool, bool) {
+	i := epIdx[ep]
+	r.mu.Lock()
+	defer r.mu.Unlock()
+	return r.calls[i] > r.rets[i], r.rcalls[i] > r.rrets[i]
+}
+
+// NoteBlocked records which application calls of ep are in progress; call it
+// at a quiescent instant (after synctest.Wait) so that they are blocked ones.
+func (r *Run) NoteBlocked(ep string) {
+	sb, rb := r.Blocked(ep)
+	r.Rec.Emit("blockedAtClose", "ep", ep, "send", b2i(sb), "recv", b2i(rb))
+}
+
+func b2i(b bool) int {
+	if b {
+		return 1
+	}
+	return 0
+}
+
+// Close calls Close on endpoint ep and records call and return.
+func (r *Run) Close(ep string, tag string) {
+	r.Rec.Emit("closeCall", "ep", ep, "tag", tag)
+	t0 := time.Now()
+	err := r.conns[ep].Close()
+	r.Rec.Emit("closeRet", "ep", ep, "tag", tag, "err", errStr(err),
+		"w", int(time.Since(t0)/time.Millisecond))
+}
+
+// PostCalls issues a Send and a Recv on a closed endpoint and records them.
+func (r *Run) PostCalls(ep string) {
+	t0 := time.Now()
+	err := r.conns[ep].Send(Payload(999, 8))
+	r.Rec.Emit("postSend", "ep", ep, "err", errStr(err),
+		"w", int(time.Since(t0)/time.Millisecond))
+	t0 = time.Now()
+	_, err = r.conns[ep].Recv()
+	r.Rec.Emit("postRecv", "ep", ep, "err", errStr(err),
+		"w", int(time.Since(t0)/time.Millisecond))
 }
 
 // Execute runs the configured scenario.  It must be called from inside a
